@@ -586,10 +586,12 @@ class ConstraintBuilder:
     def add_loop(self, klass, baumgarte=False):
         """klass: 'base' (predecessor = base, frame at the base origin), 'ball' (3 translations,
         coincident frames), 'd5a' (rotational axes, predecessor frame away from the base origin),
-        'd5b' (partial translations / separated frames with a moving predecessor)"""
+        'd5b' (partial translations / separated frames with a moving predecessor), 'd5c' (predecessor =
+        base at the base origin, one or two rotational axes locked, successor frame turned about a free
+        rotational axis: the hinge of a loop joint that has moved)"""
         g, mb = self.g, self.mb
         cands = [b for b in self.candidates() if b not in mb.virtual_ids]
-        if klass == "base":
+        if klass in ("base", "d5c"):
             P = 0
             XP = g.rot(0.3) + [F(0)] * 3
         else:
@@ -609,6 +611,15 @@ class ConstraintBuilder:
             nr = g.r.randint(1, 3)
             axes = tax + g.r.sample(rax, nr)
             free_t = []
+        elif klass == "d5c":
+            # some (not all) rotational axes locked, the successor frame turned about a free one
+            nt = g.r.randint(0, 3)
+            nr = g.r.randint(1, 2)
+            sel = g.r.sample([0, 1, 2], nt)
+            rsel = g.r.sample([0, 1, 2], nr)
+            axes = [tax[i] for i in sel] + [rax[i] for i in rsel]
+            free_t = [i for i in range(3) if i not in sel]
+            turn_axis = g.r.choice([i for i in range(3) if i not in rsel])
         elif klass == "d5b":
             nt = g.r.randint(1, 2)
             sel = g.r.sample([0, 1, 2], nt)
@@ -633,7 +644,17 @@ class ConstraintBuilder:
             for i in free_t:
                 delta[i] = g.small(-1, 1)
         rB = [a + b for a, b in zip(rA, mat_vec(RA, delta))]
-        Efs = mat_mul(ES, RA)
+        RB = RA
+        if klass == "d5c":
+            # on the manifold: the relative rotation is about a free axis, so the locked components of
+            # the sine-scaled rotation error vanish
+            c_, s_ = g.r.choice([(F(3, 5), F(4, 5)), (F(4, 5), F(-3, 5)), (F(5, 13), F(12, 13)), (F(-3, 5), F(4, 5))])
+            k = turn_axis
+            i1, i2 = (k + 1) % 3, (k + 2) % 3
+            Rk = [[F(1 if a == b else 0) for b in range(3)] for a in range(3)]
+            Rk[i1][i1], Rk[i1][i2], Rk[i2][i1], Rk[i2][i2] = c_, -s_, s_, c_
+            RB = mat_mul(RA, Rk)
+        Efs = mat_mul(ES, RB)
         rfs = mat_vec(ES, [a - b for a, b in zip(rB, pS)])
         XS = Efs[0] + Efs[1] + Efs[2] + rfs
         tst = g.r.choice([F(1, 10), F(1, 5), F(1, 2)])
